@@ -1,4 +1,5 @@
 import MesonModel.Template.Model
+import MesonModel.Template.Dispatch
 import Driver.Proto
 /- driver commands of area `template` (C14) -/
 namespace Driver.Template
@@ -60,8 +61,72 @@ def showSegs : Nat → List Seg → List String
   | _, [] => []
   | off, s :: r => (match showSeg off s with | some t => [t] | none => []) ++ showSegs (off + s.src.length) r
 
+def parseBytes (b : String) : Bytes :=
+  (b.splitOn " ").filterMap fun w => if w.isEmpty then none else w.toNat?.map Nat.toUInt8
+
+def showBytes (b : Bytes) : String := " ".intercalate (b.map fun x => toString x.toNat)
+
+def showVal : Val → String
+  | .str s => "s:" ++ encodeStr s
+  | .int i => "i:" ++ toString i
+  | .bool b => "b:" ++ (if b then "1" else "0")
+
+def showFileErr : FileErr → String
+  | .read => "ERR:Meson:read"
+  | .write => "ERR:Meson:write"
+  | .conf .defineTokens => "ERR:Meson:tokens"
+  | .conf .formatError => "ERR:Meson:format"
+  | .conf .invalidChar => "ERR:Meson:invalid"
+  | .conf .incomplete => "ERR:Meson:incomplete"
+  | .conf .indexError => "ERR:IndexError"
+  | .conf .fuel => "ERR:HANG"
+
+def showCfErr : CfErr → String
+  | .noAction => "ERR:Meson:no-action"
+  | .twoActions _ _ => "ERR:Meson:two-actions"
+  | .threeActions => "ERR:Meson:three-actions"
+  | .captureNeedsCommand => "ERR:Meson:capture-needs-command"
+  | .configManyInputs => "ERR:Meson:config-many-inputs"
+  | .copyNeedsOneInput => "ERR:Meson:copy-needs-one-input"
+  | .file e => showFileErr e
+  | .captureEncode => "ERR:UnicodeEncodeError"
+
+def showAction : Action → String
+  | .command => "command"
+  | .configuration => "configuration"
+  | .copy => "copy"
+
+def showOutFile : OutFile → String
+  | .untouched => "-"
+  | .bytes b => "B:" ++ showBytes b
+  | .json es => "J:" ++ ",".intercalate (es.map fun e => encodeStr e.key ++ ":" ++ showVal e.val)
+
+/-- `cf` request: kind(n|d|c) | entries | command | copy | capture | inputs (`,`-separated, each prefixed `=`) |
+format | output_format | macro flag | macro | codec | stdout | writes flag | writes -/
+def handleCf (fs : List String) : String :=
+  match fs with
+  | [kind, es, cmdF, copyF, capF, ins, fmt, ofmt, mf, m, enc, so, wf, w] =>
+    let entries := parseEntries es
+    let conf : ConfKw := if kind == "d" then .dict entries else if kind == "c" then .cdata entries else .absent
+    let inputs : List Bytes := (ins.splitOn ",").filterMap fun item =>
+      if item.startsWith "=" then some (parseBytes (item.drop 1).toString) else none
+    let a : CfArgs := {
+      configuration := conf, command := cmdF == "1", copy := copyF == "1", capture := capF == "1",
+      inputs := inputs, format := parseFormat fmt,
+      outputFormat := if ofmt == "nasm" then .nasm else if ofmt == "json" then .json else .c,
+      macroName := if mf == "1" then some (decodeStr m) else none,
+      cmdStdout := decodeStr so, cmdWrites := if wf == "1" then some (parseBytes w) else none }
+    let codec := if enc == "latin1" then latin1 else utf8
+    match cfRun codec cmakeFuel a with
+    | .error e => showCfErr e
+    | .ok o =>
+      let used := if kind == "c" then boolStr o.used else "-"
+      s!"OK|{showAction o.action}|{showOutFile o.out}|{canonNames o.missing}|{boolStr o.useless}|{used}"
+  | _ => "bad-op"
+
 def handle (cmd : String) (fs : List String) : String :=
   match cmd, fs with
+  | "cf", _ => handleCf fs
   | "seg", [l] => " ".intercalate (showSegs 0 (segments (decodeStr l)))
   | "subm", [d, l] =>
     let dd := parseData d; let s := decodeStr l
